@@ -64,4 +64,28 @@ def divin (r b : E) : E := let tmp := X.inv b; X.pD.modin (X.pD.mul r tmp) X.irr
 def axpyin (r b c : E) : E := let tmp := X.pD.mul b c; X.pD.modin (X.pD.add r tmp) X.irred
 end Ext
 
+
+/-! ### what an extension reports about itself (extension.h:140-150)
+
+    Extension(const BaseField_t& bF, ex) : _characteristic(bF.characteristic()), _extension_order(ex),
+        _exponent(ex * Exponent_Trait(bF)), _cardinality(pow(bF.cardinality(), ex))
+
+`Exponent_Trait(bF)` is `bF.exponent()` for every field that has one (repair C05_5; on the pinned tree only for
+`GFqDom<int64_t>` and `Extension<…>`, 1 for every other base — `extMetaPinned`). -/
+
+/-- `cardinality()`, `characteristic()`, `exponent()` of a field object -/
+structure FieldMeta where
+  card : Nat
+  char : Nat
+  expo : Nat
+deriving Repr, BEq
+
+/-- the meta data of `Extension(bF, ex)` and its `order()` -/
+def extMeta (b : FieldMeta) (ex : Nat) : FieldMeta × Nat :=
+  ({ card := b.card ^ ex, char := b.char, expo := ex * b.expo }, ex)
+
+/-- pinned tree, base field of a type the trait was not specialised for: `Exponent_Trait(bF) = 1` -/
+def extMetaPinned (b : FieldMeta) (ex : Nat) : FieldMeta × Nat :=
+  ({ card := b.card ^ ex, char := b.char, expo := ex * 1 }, ex)
+
 end Givaro.Model.GFqExtension
